@@ -67,3 +67,63 @@ MANIFEST = {
             "engine paths, membership, LSM, cached store, primary-backup, chain). Components outside it are not covered. The per-instant delivery cap is "
             "derived per scenario from its finite workload (several times the number of events it can legitimately create).",
 }
+
+
+# ------------------------------------------------------------------ LSM tree: overlapping flushes / compactions
+from happysimulator.components.storage.lsm_tree import LSMTree, SizeTieredCompaction
+from happysimulator.core.entity import Entity
+from happysimulator.core.event import Event
+from happysimulator.core.simulation import Simulation
+from happysimulator.core.temporal import Instant
+
+from harness.common import Monitor, SpinDetected, mk_event
+
+
+class _W(Entity):
+    def __init__(self, name, body):
+        super().__init__(name)
+        self.body = body
+
+    def handle_event(self, event):
+        return self.body(self)
+
+
+def lsm_compaction(sym, tier):
+    """Two writers (3 puts each, memtable_size 1, size-tiered compaction from 2 tables) plus an external
+    CompactionTrigger at a symbolic instant, so that flushes and compaction cycles overlap in simulated time."""
+    r = Result()
+    t = LSMTree("lsm", memtable_size=1, compaction_strategy=SizeTieredCompaction(min_sstables=2), max_levels=3)
+    start2 = sym.int("writer2_start_ns", 0, 6_000_000)
+    trig = sym.int("compaction_trigger_ns", 0, 12_000_000)
+    done = []
+
+    def mk(i):
+        def body(self):
+            for j in range(3):
+                yield from t.put(f"k{i}{j}", 10 * i + j)
+            done.append(i)
+        return body
+
+    ws = [_W("w0", mk(0)), _W("w1", mk(1))]
+    sim = Simulation(entities=[t] + ws)
+    mon = Monitor(sim, cap=80)
+    sim.schedule([mk_event(0, "go", ws[0]), mk_event(start2, "go", ws[1]),
+                  Event(time=Instant(trig), event_type="CompactionTrigger", target=t)])
+    try:
+        sim.run()
+    except SpinDetected:
+        pass
+    mon.judge(r, "lsm_compaction")
+    if not mon.spun and sorted(done) != [0, 1]:
+        r.bad("no_spin_at_frozen_clock", "lsm_compaction: writers never finished", done)
+    if t.stats.compactions >= 1:
+        r.wit.add("compaction_ran")
+    r.obs = {"compactions": t.stats.compactions, "flushes": t.stats.memtable_flushes}
+    return r
+
+
+HARNESSES.append(
+    H(name="c07_lsm_compaction", fn=lsm_compaction, shape="S", budget=lambda tier: 900.0,
+      require=lambda tier: ["compaction_ran"],
+      functions=["LSMTree.put/_flush_memtable/_compact/handle_event"],
+      bounds=lambda tier: {"writers": 2, "puts each": 3, "second writer start": "symbolic ns [0, 6 ms]", "CompactionTrigger": "symbolic ns [0, 12 ms]"}))
